@@ -280,6 +280,10 @@ def build_theory(th):
         return Mie(compute_escat_radial=th.get("radial", True), full_radial_dependence=th.get("full", True))
     if t == "ms":
         kw = dict(qeps1=1e-9, qeps2=1e-12, eps=1e-9) if th.get("tight") else {}
+        if th.get("tight") == "converged":
+            # iterate to the roundoff floor, so that the stopping rule cannot turn an input perturbation of one
+            # ulp into a visible step (one iteration more or less)
+            kw = dict(qeps1=1e-14, qeps2=1e-16, eps=1e-26, niter=2000)
         return Multisphere(meth=th.get("meth", 1), compute_escat_radial=th.get("radial", False), **kw)
     if t == "tmatrix":
         return Tmatrix()
